@@ -814,8 +814,8 @@ def phy_port(draw):
 
 @st.composite
 def queue_prop(draw, safe=True):
-  kinds = ["ofp_queue_prop_min_rate"] if safe else ["ofp_queue_prop_min_rate", "ofp_queue_prop_min_rate",
-                                                     "ofp_queue_prop_none", "ofp_queue_prop_generic"]
+  kinds = ["ofp_queue_prop_min_rate"] if safe else ["ofp_queue_prop_min_rate"] * 6 + ["ofp_queue_prop_none",
+                                                                                      "ofp_queue_prop_generic"]
   kind = draw(st.sampled_from(kinds))
   f = {}
   if kind == "ofp_queue_prop_min_rate":
@@ -896,8 +896,8 @@ def stats_reply_entry(draw, kind):
 
 
 @st.composite
-def message(draw, direction="any", safe=True, kinds=None):
-  """Strategy of message fragments (always with an explicit xid)."""
+def message(draw, direction="any", safe=True, kinds=None, max_list=6):
+  """Strategy of message fragments (always with an explicit xid).  max_list bounds action / port / entry lists."""
   if kinds is None:
     kinds = {"to_switch": MESSAGE_KINDS_TO_SWITCH, "to_controller": MESSAGE_KINDS_TO_CONTROLLER,
              "any": OF10_MESSAGE_KINDS}[direction]
@@ -918,7 +918,7 @@ def message(draw, direction="any", safe=True, kinds=None):
     _opt(draw, f, "n_tables", uint(8))
     _opt(draw, f, "capabilities", uint(32))
     _opt(draw, f, "actions", uint(32))
-    _opt(draw, f, "ports", st.lists(phy_port(), max_size=4))
+    _opt(draw, f, "ports", st.lists(phy_port(), max_size=max(4, max_list)))
   elif kind in ("ofp_get_config_reply", "ofp_set_config"):
     _opt(draw, f, "flags", uint(16))
     _opt(draw, f, "miss_send_len", uint(16))
@@ -943,7 +943,7 @@ def message(draw, direction="any", safe=True, kinds=None):
     _opt(draw, f, "desc", phy_port())
   elif kind == "ofp_packet_out":
     _opt(draw, f, "in_port", uint(16))
-    _opt(draw, f, "actions", actions())
+    _opt(draw, f, "actions", actions(max_list))
     if draw(st.booleans()):
       _opt(draw, f, "data", payload())          # unbuffered: carries the frame
       if draw(st.booleans()):
@@ -955,7 +955,7 @@ def message(draw, direction="any", safe=True, kinds=None):
     for n, b in (("cookie", 64), ("command", 16), ("idle_timeout", 16), ("hard_timeout", 16), ("priority", 16),
                  ("buffer_id", 32), ("out_port", 16), ("flags", 16)):
       _opt(draw, f, n, uint(b), 0.3)
-    _opt(draw, f, "actions", actions())
+    _opt(draw, f, "actions", actions(max_list))
   elif kind == "ofp_port_mod":
     _opt(draw, f, "port_no", uint(16))
     _opt(draw, f, "hw_addr", macs())
@@ -993,7 +993,7 @@ def message(draw, direction="any", safe=True, kinds=None):
       bk = draw(st.sampled_from(rk))
       t = R.stats_type_of(bk, True)
       if R.stats_reply_is_array(t):
-        f["body"] = draw(st.lists(stats_reply_entry(bk), max_size=4))
+        f["body"] = draw(st.lists(stats_reply_entry(bk), max_size=max(4, max_list // 2)))
         if not f["body"] or draw(st.booleans()):
           f["type"] = t
       else:
